@@ -39,3 +39,8 @@ pub use interface::Interface;
 
 #[cfg(feature = "idl-parse")]
 mod parse;
+
+/// Verification hooks (see /verif/DESIGN.md).
+#[cfg(all(feature = "idl-parse", zlink_verif))]
+#[doc(hidden)]
+pub use parse::verif as parse_verif;
